@@ -149,7 +149,7 @@ def make_c04_trace(job):
             docs["spaces"].append([p, rng.randrange(len(DOC_CORPUS))])
     for p, cs in defs["cells"]:
         for c, rec in cs.items():
-            if defs["flib"][rec["f"]].get("style", "def") == "def" and rng.random() < 0.4:
+            if rng.random() < 0.4:       # (def and lambda cells alike)
                 docs["cells"].append([p, c, rng.randrange(len(DOC_CORPUS))])
     defs["docs"] = docs
     w = World(defs, track_handles=False)
